@@ -135,7 +135,11 @@ def mean_case(draw):
     weights = None
     if draw(st.booleans()):
         weights = draw(st.lists(_f(0.01, 10.0), min_size=n, max_size=n))
-    return {"points": pts, "weights": weights, "centre": c, "spread": spread, "dtype": draw(st.sampled_from(["f8", "f8", "f8", "f4", "f2", "list"]))}
+    # right ascension may be handed over in another convention (-pi..pi, or beyond one turn):
+    # the position is the same, the returned RA is in [0, 2pi) all the same
+    turns = draw(st.lists(st.sampled_from([0, 0, 0, -1, 1]), min_size=n, max_size=n))
+    pts = [[p[0] + 2.0 * math.pi * t, p[1]] for p, t in zip(pts, turns)]
+    return {"points": pts, "weights": weights, "centre": c, "spread": spread, "shifted": any(turns), "dtype": draw(st.sampled_from(["f8", "f8", "f8", "f4", "f2", "list"]))}
 
 
 # --------------------------------------------------------------------------
@@ -159,10 +163,11 @@ def as_input(points, dtype):
     arr = np.array(points, dtype=float)
     if dtype == "list":
         return arr.tolist(), arr
+    in_range = np.all((arr[:, 0] >= 0) & (arr[:, 0] < TWO_PI))
     if dtype in ("f4", "f2"):
         narrow = arr.astype(dtype)
         back = narrow.astype(float)
-        if np.all(np.isfinite(back)) and np.all((back[:, 0] >= 0) & (back[:, 0] < TWO_PI) & (np.abs(back[:, 1]) <= HALF_PI)):
+        if np.all(np.isfinite(back)) and np.all((np.abs(back[:, 1]) <= HALF_PI)) and (not in_range or np.all((back[:, 0] >= 0) & (back[:, 0] < TWO_PI))):
             return narrow, back
     return arr, arr
 
@@ -291,7 +296,7 @@ def run_mean(case):
     m = mp()
     in_pts, pts = as_input(case["points"], case.get("dtype", "f8"))
     w = None if case["weights"] is None else np.array(case["weights"], dtype=float)
-    ck = Checker(near_special(*case["centre"]), classes=[f"spread:{case['spread']}", "weighted" if w is not None else "unweighted", f"input:{getattr(in_pts, 'dtype', 'list')}"])
+    ck = Checker(near_special(*case["centre"]), classes=[f"spread:{case['spread']}", "weighted" if w is not None else "unweighted", f"input:{getattr(in_pts, 'dtype', 'list')}"] + (["ra-outside-[0,2pi)"] if case.get("shifted") else []))
     ws = [m.mpf(1)] * len(pts) if w is None else [m.mpf(float(x)) for x in w]
     sx = sy = sz = m.mpf(0)
     for (ra, dec), wi in zip(pts, ws):
